@@ -384,6 +384,45 @@ def check_text_bodies_in_ranges(rec, W):
                     return
 
 
+def check_short_reading_files(rec, W):
+    """Fault-like input: a file object whose read() hands out fewer bytes than asked before its end (a pipe, a socket
+    file, a raw stream).  A wrapped file is sent to its end: the body has the length that was announced."""
+    Response, create_environ = W.Response, W.create_environ
+
+    class ShortFile(io.BytesIO):
+        def read(self, n=-1):
+            return super().read(min(n, 1000) if n is not None and n >= 0 else 1000)
+
+    data = bytes([65 + i % 23 for i in range(25_600)])
+    for block in (8192, 1000, 999, 4096):
+        for how in ("content-length", "no-length", "range", "wrap_file"):
+            env = create_environ("/", headers={"Range": "bytes=100-19999"} if how == "range" else {})
+            f = ShortFile(data)
+            if how == "wrap_file":
+                env["wsgi.file_wrapper"] = ServerFileWrapper
+                body = W.wrap_file(env, f, block)
+            else:
+                body = W.FileWrapper(f, block)
+            r = Response(body, direct_passthrough=True, mimetype="application/octet-stream")
+            if how == "content-length":
+                r.headers["Content-Length"] = str(len(data))
+            if how == "range":
+                r.make_conditional(env, accept_ranges=True, complete_length=len(data))
+            it, st, hd = r.get_wsgi_response(env)
+            got = b"".join(it)
+            if hasattr(it, "close"):
+                it.close()
+            want = data[100:20000] if how == "range" else data
+            cl = dict(hd).get("Content-Length")
+            case = {"part": "short-reading-file", "block": block, "how": how}
+            rec.case()
+            rec.nontrivial(("short-file", block, how))
+            rec.observe("short_reading_files_served")
+            if got != want or (cl is not None and int(cl) != len(got)):
+                rec.violation("C05/H2-content-length-mismatch", f"a file object that reads at most 1000 bytes per call, block size {block}, {how}: {st}, Content-Length {cl!r}, {len(got)} body bytes (the file holds {len(want)} for this answer)", case, monitor="H2")
+                return
+
+
 def check_repeated_entries(rec, W):
     """History of the header list: the application (or an upstream response it was built from) left a header in the list
     more than once, spelled the way werkzeug itself spells it; then werkzeug computes the value anew (a new body, a
@@ -905,6 +944,7 @@ def run(shard, rec, rng):
         check_reuse_and_faulty_callback(rec, W)
         check_repeated_entries(rec, W)
         check_text_bodies_in_ranges(rec, W)
+        check_short_reading_files(rec, W)
     if shard["index"] % 4 == 1:
         check_stream_histories(rec, W, rng, 400)
     if shard["index"] % 4 == 2:
